@@ -335,15 +335,27 @@ func (vc *VC) heapSet(st *State, comp string, term string) {
 // symbol agrees with the old one outside the row; inside, cellFact(i, newCell, oldCell) holds for every i
 // (nil: unconstrained). Returns the new heap symbol.
 func (vc *VC) rowUpdate(st *State, comp, sort, outer string, cellFact func(i, newCell, oldCell string) string) string {
+	return vc.rowUpdatePat(st, comp, sort, outer, cellFact, nil)
+}
+
+// rowUpdatePat: like rowUpdate; extraPat(i) gives an additional trigger term for the cell fact (e.g. the source
+// cell of a copy, so that a fact known about the source carries over to the copy).
+func (vc *VC) rowUpdatePat(st *State, comp, sort, outer string, cellFact func(i, newCell, oldCell string) string, extraPat func(i string) string) string {
 	h := vc.heapGet(st, comp, sort)
 	n := vc.fresh("H_"+comp, sort)
-	st.assume(fmt.Sprintf("(forall ((a!r Int) (i!r Int)) (! (=> (not (= a!r %s)) (= (select %s (pr a!r i!r)) (select %s (pr a!r i!r)))) :pattern ((select %s (pr a!r i!r))) :qid rowframe))", outer, n, h, n))
+	st.assume(fmt.Sprintf("(forall ((a!r Int) (i!r Int)) (! (=> (not (= a!r %s)) (= (select %s (pr a!r i!r)) (select %s (pr a!r i!r)))) :pattern ((select %s (pr a!r i!r))) :pattern ((select %s (pr a!r i!r))) :qid rowframe))", outer, n, h, n, h))
 	if cellFact != nil {
 		nc := fmt.Sprintf("(select %s (pr %s i!r))", n, outer)
 		oc := fmt.Sprintf("(select %s (pr %s i!r))", h, outer)
 		f := cellFact("i!r", nc, oc)
 		if f != "" && f != "true" {
-			st.assume("(forall ((i!r Int)) (! " + f + " :pattern (" + nc + ") :qid rowcell))")
+			pats := " :pattern (" + nc + ")"
+			if extraPat != nil {
+				if p := extraPat("i!r"); p != "" {
+					pats += " :pattern (" + p + ")"
+				}
+			}
+			st.assume("(forall ((i!r Int)) (! " + f + pats + " :qid rowcell))")
 		}
 	}
 	st.logWrite(comp, outer)
